@@ -16,7 +16,7 @@ Your job: produce TWO different, independent changes to the library's non-test s
  (2) breaks the property above - i.e. there is an input / sequence of calls / schedule / fault for which the property no longer holds;
  (3) needs something specific to manifest: an unusual input, a particular multi-step sequence of operations, a fault at a particular point, a particular interleaving, or two cooperating code sites that each look fine alone - NOT something any ordinary use would expose at once (a change that breaks the common case is useless: the existing golden tests would catch it anyway);
  (4) looks like a plausible refactoring/optimisation/bug a maintainer could really introduce (off-by-one at a boundary, a cache, a fast path, a reordered check, an early return, a changed default, state kept in the wrong place ...), and is small (a few lines to a few dozen).
-Make X_ and Y_ differ in kind (different code site or different mechanism). Be inventive: prefer mechanisms nobody has used yet for this property (see the list below) - e.g. an interaction between two features that are each fine alone, a boundary of a size/count/length (the third of something, the 17th byte, a width of exactly N), a dependence on the order of two API calls, state that survives in an object that is reused, an input class nobody thinks of (empty, very long, unusual bytes, multi-byte or zero-width or double-width characters, already-wrapped values), a wrong but plausible use of a standard-library function, a change in a file far away from the obvious one. Do NOT use `git stash` (the stash is shared between worktrees); use `git diff > file` and `git checkout -- .` instead.
+Make X_ and Y_ differ in kind (different code site or different mechanism). Be inventive: prefer mechanisms nobody has used yet for this property (see the list below) - e.g. an interaction between two features that are each fine alone, a boundary of a size/count/length (the third of something, the 17th byte, a width of exactly N), a dependence on the order of two API calls, state that survives in an object that is reused, an input class nobody thinks of (empty, very long, unusual bytes, multi-byte or zero-width or double-width characters, already-wrapped values), a wrong but plausible use of a standard-library function, a change in a file far away from the obvious one. Read the property's statement and its 'Quantified over' line clause by clause against the list below: if some clause or some dimension of the quantifier (an input class, a configuration, an order of operations, a kind of owner/format/decoration) has not been attacked yet, attack that one. Do NOT use `git stash` (the stash is shared between worktrees); use `git diff > file` and `git checkout -- .` instead.
 
 Other people have already produced the following changes for this property; do NOT repeat them or trivial variants of them:
 @@TRIED@@
